@@ -479,6 +479,8 @@ def e2e_engine(pid, spec, tier, seed, workdir, res):
             # monitors on the implementation
             for k, d in sorted(mon.get(cid, {}).items()):
                 dist['how:' + re.sub(r':\d+$', '', d.get('how', '?'))] = dist.get('how:' + re.sub(r':\d+$', '', d.get('how', '?')), 0) + 1
+                if 'urlwf' in d and pid == 'C03':
+                    dist['url-in-theorem-domain:' + d['urlwf']] = dist.get('url-in-theorem-domain:' + d['urlwf'], 0) + 1
                 for mk in mkeys:
                     v = d.get(mk, 'na')
                     dist[mk + ':' + v.split(':')[0]] = dist.get(mk + ':' + v.split(':')[0], 0) + 1
